@@ -123,6 +123,12 @@ int main(int argc, char **argv) {
             f << (std::string) it->second;
           }
         }
+        if (job.get<std::string>("kind", "string") == "none") {
+          // an editor job: it only (re)writes files
+          out["status"] = "ok";
+          std::cout << out.dump(0) << std::endl;
+          continue;
+        }
         // a job may bring its own device properties (otherwise the process-wide device is used)
         occa::device jdev = dev;
         if (job.has("device")) {
